@@ -953,3 +953,9 @@ def observe(w: Any, params: Any, case: dict) -> Any:
 
 
 execute = case_execute(build, oracle, observe, describe_case)
+
+
+# wave h documentation (what was added to the enumeration; see DESIGN.md 11.0)
+_WAVE_H = "+ Upgrade value 'websocket, caf\\xe9/1' in the hs1 product; races 'armfail+cc:<code>' on ws/h1 (the reply to the client's Close is the write that fails)"
+RULE = RULE + " " + _WAVE_H
+BOUNDS_DOC = {k: v + " " + _WAVE_H for k, v in BOUNDS_DOC.items()}
